@@ -43,6 +43,13 @@ void c04_inst_meta(TupleVector<DV, DVB, DV>& t3, TupleVector<DVB, DV>& t2, Tuple
   c04_meta_members(q2, q2); c04_meta_members(q1, q1);
 }
 
+// DenseVector adopting the pod array of a blocked vector (member template convert<DT2_, IT2_, BS2_>)
+void c04_inst_convert(DV& d, const DVB& b3, const DenseVectorBlocked<double, Index, 2>& b2)
+{
+  d.convert(b3);
+  d.convert(b2);
+}
+
 #ifdef VERIF_THOROUGH
 template class FEAT::LAFEM::DenseVector<float, std::uint32_t>;
 template class FEAT::LAFEM::DenseVector<double, std::uint32_t>;
